@@ -85,10 +85,13 @@ def run(ctx):
             stats["sources"] += 1
             version = ctx.rnd.choice([4712, 4713])
             by_path, with_index = i % 4 == 1, i % 2 == 0
+            in_place = by_path and i % 8 == 1        # destination path = source path: the copy replaces the file it was made from
             try:
                 if by_path:
-                    sp, dp = os.path.join(tmp, "s.tdms"), os.path.join(tmp, "d.tdms")
-                    for q in (dp, dp + "_index"):
+                    sp = os.path.join(tmp, "s.tdms")
+                    dp = sp if in_place else os.path.join(tmp, "d.tdms")
+                    stats["in_place"] = stats.get("in_place", 0) + in_place
+                    for q in (dp, dp + "_index", sp + "_index"):
                         if os.path.exists(q):
                             os.unlink(q)
                     open(sp, "wb").write(src)
@@ -167,7 +170,7 @@ def run(ctx):
         shutil.rmtree(tmp, ignore_errors=True)
     return dict(violations=violations[:5], disagreements=disagreements[:20],
                 coverage=dict(evaluations=stats["sources"], distinct_nontrivial=len(nontrivial),
-                              rule="non-DAQmx sources from the file generator (fragmented over up to 6 segments, empty and property-only channels, strings, "
+                              rule="(every eighth source is defragmented in place: destination path = source path) non-DAQmx sources from the file generator (fragmented over up to 6 segments, empty and property-only channels, strings, "
                                    "timestamps, complex, both byte orders, every third with a Linear scaling), destination stream or path, with and without index; "
                                    "non-trivial = distinct multi-segment sources holding data",
                               samples=samples or [dict(note="see feature_counts")], counts=stats, feature_counts=dict(sorted(feats.items()))))
